@@ -7,3 +7,7 @@ reg("C05", "exploration",
     "Differential testing of the glyph-set API against HarfBuzz (FreeType adjudicating) over every glyph of every corpus font at the default location and at generated variation locations (axis extremes, corners, interior, avar segment ends, out-of-range), outlines compared up to representation by vf.geom with 0.51-unit tolerance, advances within 1 unit.",
     "HarfBuzz/FreeType are trusted as correct OpenType implementations; corpus fonts only in this round (generated fonts are exercised through C02/C10/C12); VARC compared at tolerance 2.0 (see evidence assumptions).",
     "differential testing against independent implementations over enumerated corpus x generated locations", "DESIGN.md section 2 C05")
+reg("C01", "exploration",
+    "Round-trip search over every corpus font in every container flavour, Hypothesis-generated table transplants with unknown-tag tables, lazy modes and generated touched-table sets: G1 = save(load(G0)), G2 = save(load(G1)); oracle = untouched/undecodable tables byte-identical, decoded tables content-equal after masking documented recomputed fields, G2 == G1 byte for byte, save never raises.",
+    "Content equality of recompiled tables is judged on the library's own TTX fragment of the original file vs the re-saved file (masks listed in evidence assumptions); single-table TTX dumps of feaLib/otlLib are not mounted on skeleton fonts in this round.",
+    "round-trip / fixed-point metamorphic testing over corpus x generated transplants and load configurations", "DESIGN.md section 2 C01")
